@@ -175,7 +175,11 @@ def build_and_verify(scratch):
         for s0, name in starts:
             if s0 <= line:
                 fn = name
-        errs.setdefault(fn, []).append(m.group(0).strip())
+        lab = re.search(r'/\*(C\d\d[^*]*)\*/', lines[line - 1]) if 0 < line <= len(lines) else None
+        block = m.group(0).strip()
+        if lab and ('/*' + lab.group(1) + '*/') not in block:
+            block = '/*' + lab.group(1) + '*/ ' + block      # tag the block with the label of the failing clause line
+        errs.setdefault(fn, []).append(block)
     res['errors_by_fn'] = errs
     vr = (js or {}).get('verification-results', {})
     res['vir_error'] = bool(vr.get('encountered-vir-error')) or js is None or ('verified' not in vr)
@@ -225,17 +229,19 @@ def run(spec, prop, tier, vobl, results, undecided, violations, checker_cmds, as
                 results[o['id']] = dict(status='undecided', detail='solver resource limit: ' + joined[:800])
                 undecided.append(o['id'])
                 continue
+            lab_rx = r'/\*C\d\d[^*]*\*/'
             if label is not None:
-                mine = [e for e in errs if label in e]
-                if not mine:
-                    # the function failed, but not on this obligation's labelled clause
-                    other_labels = any(re.search(r'/\*[A-Z]\d\d[^*]*\*/', e) for e in errs)
-                    if other_labels:
-                        results[o['id']] = dict(status='discharged', time=st['ms'] / 1000.0,
-                                                detail='function has failures on other labelled clauses only')
-                        continue
-                    mine = errs
-                joined = '\n\n'.join(mine)
+                mine = [e for e in errs if '/*' + label + '*/' in e]
+            else:
+                # un-labelled obligation (panic freedom + frame): every error not tied to a labelled clause
+                mine = [e for e in errs if not re.search(lab_rx, e)]
+            if not mine and errs:
+                results[o['id']] = dict(status='discharged', time=st['ms'] / 1000.0,
+                                        detail='function fails only on clauses that belong to other obligations')
+                continue
+            if not mine:
+                mine = ['function reported as failed by Verus; no error block could be attributed']
+            joined = '\n\n'.join(mine)
             results[o['id']] = dict(status='failed', time=st['ms'] / 1000.0, detail=joined[:3000])
             violations.append(o)
     for fn, h in res['shas'].items():
